@@ -73,7 +73,8 @@ def value_for(section, key, typ, src, flip, sb, absolute):
     if typ == "list-union":
         if flip and src == "s":
             return []            # an empty list in a higher-priority source must not hide the lower ones
-        return {"s": ["pat_s1", "*.s2"], "u": ["pat_u1"], "c": ["pat_c1", "pat_c2/"]}[src]
+        # near-duplicates across sources (trailing slash, leading './', doubled slash) are different patterns
+        return {"s": ["pat_s1", "*.s2", "pat_c2", "./pat_u1"], "u": ["pat_u1", "pat_c1/", "gen*"], "c": ["pat_c1", "pat_c2/", "gen*/", "a//b"]}[src]
     if typ == "path-cli":
         rel = f"outdir_{src}/x"
         return sb.path("absout_" + src) if absolute else rel
